@@ -1,4 +1,5 @@
 import EupsModel.Lemmas.Cache
+import EupsModel.Lemmas.DryRun
 /-! C15 — dry-run (-n) commands change nothing.  Property theorems only.
 
 The model threads `noaction` through `Model/Db.lean` exactly where `Eups.py` tests it: in `declare` around
@@ -25,6 +26,126 @@ theorem C15_noaction_is_identity (w : World) (u : User) (c : Cmd) (crash : Optio
     (step w (.run u c crash)).db = w.db ∧ (step w (.run u c crash)).dirs = w.dirs ∧
       (step w (.run u c crash)).touch = w.touch ∧ (step w (.run u c crash)).extras = w.extras :=
   step_of_empty_trace true w u c crash (fun p hp => by rw [run_noaction w.nst c h p]; exact hp)
+
+/-- what one process of a history does when its command is a dry run: it loads the stacks, and that is all -/
+theorem stepG_noaction (fixed : Bool) (w : World) (u : User) (c : Cmd) (crash : Option Nat) (h : c.noaction = true) :
+    (stepG fixed w (.run u c crash)).w = (load w u c.self).2.2 ∧ (stepG fixed w (.run u c crash)).trace = [] := by
+  simp only [stepG]
+  generalize load w u c.self = l
+  obtain ⟨m, fl, w1⟩ := l
+  dsimp only
+  rw [run_noaction w.nst c h]
+  have hc : ∀ k, cutAt [] k = ([], none) := cutAt_nil
+  cases crash with
+  | none => exact ⟨rfl, rfl⟩
+  | some k => dsimp only; rw [hc k]; exact ⟨rfl, rfl⟩
+
+/-- **A dry run is a query.**  For every state of the world — database, record modification times, directories,
+extra files, the cache files of every user — every user, every one of the listed commands run with `noaction`,
+killed anywhere or not: the world afterwards is, field for field, the world after a command that only *reads* the
+stacks with the same flavor (`eups list`).  Whatever a dry run does to cache files is what loading the stacks does
+(a stale cache is rebuilt); nothing else is written anywhere. -/
+theorem C15_noaction_is_query (w : World) (u : User) (c : Cmd) (crash : Option Nat) (h : c.noaction = true) :
+    step w (.run u c crash) = step w (.run u (.query c.self) none) := by
+  unfold step
+  rw [(stepG_noaction true w u c crash h).1, (stepG_noaction true w u (.query c.self) none rfl).1]
+  rfl
+
+/-- **Byte level.**  The same on the record files of `Model/DbFile.lean` (`ups_db/<product>/<version>.version`
+with one block per flavor, `<tag>.chain`): after a dry run, from any files `F` and any world — related to `F` or
+not — the files are the same list of files, each with the same blocks in the same order; no file is created,
+rewritten, reordered or removed. -/
+theorem C15_noaction_files_identical (F : DbFile.FileDb) (w : World) (u : User) (c : Cmd) (crash : Option Nat)
+    (h : c.noaction = true) :
+    (stepF (F, w) (.run u c crash)).1 = F ∧ (stepF (F, w) (.run u c crash)).2 = step w (.run u (.query c.self) none) := by
+  refine ⟨?_, ?_⟩
+  · simp only [stepF]; rw [(stepG_noaction true w u c crash h).2]; rfl
+  · exact C15_noaction_is_query w u c crash h
+
+/-- **After every history.**  From the empty stacks, after any history of commands (processes of any user and
+flavor, killed anywhere, cache files deleted, directories deleted by hand), a dry run of any listed command leaves
+the record files (byte level), the database a fresh reader sees, the installation directories and the extra files
+exactly as the history left them. -/
+theorem C15_noaction_after_history (nst : Nat) (dirs : List DirEnt) (tfiles : List TFile) (hist : List WCmd)
+    (u : User) (c : Cmd) (crash : Option Nat) (h : c.noaction = true) :
+    (runHistoryF nst dirs (hist ++ [.run u c crash]) tfiles).1 = (runHistoryF nst dirs hist tfiles).1 ∧
+    (runHistoryF nst dirs (hist ++ [.run u c crash]) tfiles).2.db = (runHistoryF nst dirs hist tfiles).2.db ∧
+    (runHistoryF nst dirs (hist ++ [.run u c crash]) tfiles).2.dirs = (runHistoryF nst dirs hist tfiles).2.dirs ∧
+    (runHistoryF nst dirs (hist ++ [.run u c crash]) tfiles).2.extras = (runHistoryF nst dirs hist tfiles).2.extras := by
+  simp only [runHistoryF, List.foldl_append, List.foldl_cons, List.foldl_nil]
+  generalize List.foldl stepF (DbFile.FileDb.empty, World.init nst dirs tfiles) hist = Fw
+  obtain ⟨F, w⟩ := Fw
+  obtain ⟨h1, h2⟩ := C15_noaction_files_identical F w u c crash h
+  obtain ⟨k1, k2, _, k4⟩ := C15_noaction_is_identity w u c crash h
+  refine ⟨h1, ?_, ?_, ?_⟩
+  · show (stepG true w (.run u c crash)).w.db = w.db; exact k1
+  · show (stepG true w (.run u c crash)).w.dirs = w.dirs; exact k2
+  · show (stepG true w (.run u c crash)).w.extras = w.extras; exact k4
+
+/-- **"... report what they would do".**  For every state of the world, every user and each of declare, undeclare,
+tag removal and remove: the process that runs the command with `noaction` and the process that runs it for real
+load the same view; read as announcements (`Eff.msg`: "Declaring ...", "Assigning tag ...", "eups undeclare --tag
+...", "Removing ... from version list", "rm -rf ...", "cp ..."; the purge of a tag's old occurrences inside declare
+has none of its own), the effects of the real run are a prefix of what the dry run reports — and exactly what it
+reports whenever the real run ends well.  (`rest` is what a real run that fails half way no longer gets to:
+`Database` finds nothing to undeclare, the tag cannot be assigned, the directory is gone.) -/
+theorem C15_report_is_what_the_real_run_does (w : World) (u : User) (c : Cmd) (hc : c.dryable = true) :
+    let dry := stepG true w (.run u (c.withNoaction true) none)
+    let real := stepG true w (.run u (c.withNoaction false) none)
+    dry.view = real.view ∧ dry.flavs = real.flavs ∧
+    ∃ rest, dry.would = msgs c.isDeclare real.trace ++ rest ∧ (real.out = .ok → rest = []) := by
+  simp only [stepG, Cmd.withNoaction_self]
+  generalize load w u c.self = l
+  obtain ⟨m, fl, w1⟩ := l
+  dsimp only
+  refine ⟨trivial, trivial, ?_⟩
+  obtain ⟨es, rest, h1, h2, h3⟩ := run_report w.nst c hc ⟨w1.db, m, w1.dirs, [], w1.extras, w.tfiles⟩
+  refine ⟨rest, ?_, ?_⟩
+  · rw [wouldDo_withNoaction, h2, h1]; simp
+  · intro k; exact h3 k
+
+/-- **A dry run that is refused, or does not find what it is asked about, shows how the real run ends**: the
+outcome of the dry run is the outcome of the real run unless the dry run ends well; and a command that would
+succeed never fails as a dry run. -/
+theorem C15_dry_outcome_is_real_outcome (w : World) (u : User) (c : Cmd) (crash : Option Nat) :
+    let dry := stepG true w (.run u (c.withNoaction true) crash)
+    let real := stepG true w (.run u (c.withNoaction false) crash)
+    (dry.out ≠ .ok → real.out = dry.out) ∧ (real.out = .ok → dry.out = .ok) := by
+  simp only [stepG, Cmd.withNoaction_self]
+  generalize load w u c.self = l
+  obtain ⟨m, fl, w1⟩ := l
+  dsimp only
+  exact ⟨run_dry_outcome w.nst c _, run_real_ok_dry_ok w.nst c _⟩
+
+/-- the converse fails, and has to: `remove` of a product whose directory somebody deleted by hand is announced
+("rm -rf <dir>") by the dry run, which ends well, while the real run undeclares the product and then fails in
+`rmtree` — the dry run does not look whether the directory is there (Eups.py l.3291 prints, l.3294 acts). -/
+theorem C15_dry_ok_real_fails_witness :
+    let p : Name := [112]; let L : Flav := [76]
+    let d : Dir := ⟨0, relDir L p [49]⟩
+    let w0 := step (World.init 2 [⟨d, p⟩])
+      (.run 0 (.declare ⟨L, p, [49], some d, none, .dflt, none, false, false, []⟩) none)
+    let w := step w0 (.envRmDir d)
+    let c : Cmd := .remove L p [49] false false false none
+    (stepG true w (.run 0 (c.withNoaction true) none)).out = .ok ∧
+    (stepG true w (.run 0 (c.withNoaction true) none)).would = [.removing [49] 0, .rmrf d] ∧
+    (stepG true w (.run 0 (c.withNoaction false) none)).out = .failed ∧
+    msgs false (stepG true w (.run 0 (c.withNoaction false) none)).trace = [.removing [49] 0] := by
+  decide
+
+/-- non-vacuity of the report theorem: `declare p 2 <dir> -t current` when `p 1` is current — the real run writes the
+version record, takes the tag from `p 1`, assigns it; the dry run announces the record and the tag -/
+example :
+    let p : Name := [112]; let L : Flav := [76]
+    let d1 : Dir := ⟨0, relDir L p [49]⟩; let d2 : Dir := ⟨0, relDir L p [50]⟩
+    let w := step (World.init 2 [⟨d1, p⟩, ⟨d2, p⟩])
+      (.run 0 (.declare ⟨L, p, [49], some d1, none, .dflt, none, false, false, []⟩) none)
+    let c : Cmd := .declare ⟨L, p, [50], some d2, none, .dflt, some current, false, true, []⟩
+    c.dryable = true ∧
+    (stepG true w (.run 0 (c.withNoaction true) none)).would = [.declaring 0 (some current), .assigning current] ∧
+    (stepG true w (.run 0 (c.withNoaction false) none)).trace =
+      [.declare ⟨0, p, [50], L, d2, .default⟩ (some current), .unassign 0 current p L, .assign 0 current p L [50]] := by
+  decide
 
 /-! ### non-vacuity: the same commands without `noaction` do change the database -/
 
